@@ -12,6 +12,10 @@ import (
 // Gen is a seeded generator.
 type Gen struct {
 	R *rand.Rand
+
+	// plain restricts the next WellFormedFlow to the constructs modifier
+	// mode supports: Params, Results, Concurrency and plain Tasks.
+	plain bool
 }
 
 // New returns a generator for the seed.
@@ -80,7 +84,7 @@ func (g *Gen) WellFormedFlow(pid int) *ps.Program {
 			consumed[x] = true
 		}
 		// predicate
-		if g.chance(28) {
+		if !g.plain && g.chance(28) {
 			t.Pred = true
 			t.PCtx = g.chance(30)
 			npin := g.R.Intn(3)
@@ -99,7 +103,7 @@ func (g *Gen) WellFormedFlow(pid int) *ps.Program {
 		// outputs
 		nout := 1
 		switch r := g.R.Intn(100); {
-		case r < 12:
+		case r < 12 && !g.plain:
 			nout = 0
 		case r < 70:
 			nout = 1
@@ -118,10 +122,10 @@ func (g *Gen) WellFormedFlow(pid int) *ps.Program {
 		}
 		t.Ctx = g.chance(40)
 		t.Err = g.chance(55)
-		if t.Err && len(t.Outs) > 0 && g.chance(35) {
+		if !g.plain && t.Err && len(t.Outs) > 0 && g.chance(35) {
 			t.FB = true
 		}
-		if t.Err && len(t.Outs) == 0 && g.chance(20) {
+		if !g.plain && t.Err && len(t.Outs) == 0 && g.chance(20) {
 			t.FB = true // cff.FallbackWith() without values on an output-less task
 		}
 		p.Tasks = append(p.Tasks, t)
@@ -195,7 +199,7 @@ func (g *Gen) flowOpts(p *ps.Program) {
 	if g.chance(45) {
 		p.Conc = g.pick([]int{1, 2, 3, 8})
 	}
-	if g.chance(50) {
+	if !g.plain && g.chance(50) {
 		p.Emitters = 1 + g.R.Intn(3)
 		p.InstrDir = g.chance(60)
 		for _, t := range p.Tasks {
@@ -210,6 +214,46 @@ func (g *Gen) flowOpts(p *ps.Program) {
 	p.Generic = g.chance(12)
 	p.TyAlias = g.chance(25)
 	p.Site = g.pickS("assign", "assign", "assign", "return", "if", "arg")
+	g.quirks(p)
+	p.ModSub = IsModSubset(p)
+}
+
+// quirks draws the source-level peculiarities of well-formed programs:
+// `time` imported under an alias, and (flows) Params split over two
+// cff.Params options.
+func (g *Gen) quirks(p *ps.Program) {
+	switch r := g.R.Intn(100); {
+	case r < 14:
+		p.Quirk = "timealias"
+	case r < 26 && p.Kind == "flow" && len(p.Params) >= 2:
+		p.Quirk = "params2"
+	}
+}
+
+// IsModSubset reports whether the flow only uses what modifier mode
+// supports: Params, Results, Concurrency and plain Tasks.
+func IsModSubset(p *ps.Program) bool {
+	if p.Kind != "flow" || p.Stream != "wf" || p.Emitters != 0 || p.InstrDir || len(p.Tasks) == 0 {
+		return false
+	}
+	switch p.Quirk {
+	case "", "timealias", "params2":
+	default:
+		return false
+	}
+	for _, t := range p.Tasks {
+		if t.Pred || t.FB || t.Invoke || t.Instr || len(t.Outs) == 0 {
+			return false
+		}
+	}
+	return true
+}
+
+// PlainFlow draws a well-formed flow inside the modifier-mode subset.
+func (g *Gen) PlainFlow(pid int) *ps.Program {
+	g.plain = true
+	defer func() { g.plain = false }()
+	return g.WellFormedFlow(pid)
 }
 
 func homes(tys ...[]int) (ext, local bool) {
@@ -358,7 +402,7 @@ var MutKinds = []string{
 	"drop-provider", "dup-task-task", "dup-params-params", "dup-params-task", "dup-same-task",
 	"cycle", "cycle-pred", "cycle-self", "cycle-unreachable",
 	"unused-param", "unused-output", "strip-invoke", "invoke-with-outputs",
-	"fallback-no-error", "instr-no-emitter",
+	"fallback-no-error", "instr-no-emitter", "invoke-nonconst", "dup-params-two-options",
 }
 
 func (g *Gen) freshType(p *ps.Program) (int, bool) {
@@ -575,6 +619,23 @@ func (g *Gen) Mutate(p *ps.Program, kind string) bool {
 			return false
 		}
 		pickT(ts).FB = true
+	case "invoke-nonconst":
+		// cff.Invoke(h.True()): the argument must be a constant.
+		if len(tasksWith(func(t *ps.Task) bool { return t.Invoke })) == 0 {
+			t := &ps.Task{K: len(p.Tasks), Err: g.chance(50), Ctx: g.chance(30), Invoke: true}
+			if len(p.Params) > 0 {
+				t.Ins = []int{p.Params[0]}
+			}
+			p.Tasks = append(p.Tasks, t)
+		}
+		p.Quirk = "invokevar"
+	case "dup-params-two-options":
+		// Entry 0 alone in the first cff.Params option, its type again in the second.
+		if len(p.Params) == 0 {
+			return false
+		}
+		p.Params = append(p.Params, p.Params[0])
+		p.Quirk = "params2"
 	case "instr-no-emitter":
 		p.Emitters = 0
 		p.AutoInstr = false
@@ -610,8 +671,12 @@ func (g *Gen) freshTypeExcluding(p *ps.Program, ex []int) (int, bool) {
 func (g *Gen) MutatedFlow(pid int, kind string) *ps.Program {
 	for tries := 0; tries < 200; tries++ {
 		p := g.WellFormedFlow(pid)
+		if p.Quirk == "params2" || p.Quirk == "invokevar" {
+			p.Quirk = ""
+		}
 		if g.Mutate(p, kind) {
 			p.Stream = "mut:" + kind
+			p.ModSub = false
 			// New tasks may have been added; redo forms and order.
 			g.forms(p)
 			g.order(p)
@@ -663,16 +728,19 @@ func (g *Gen) ParallelProgram(pid int) *ps.Program {
 	}
 	for s := 0; s < ns; s++ {
 		sl := &ps.Slice{S: s, Idx: g.chance(65), Ctx: g.chance(45), Err: g.chance(65), Len: sizes[g.R.Intn(len(sizes))],
-			Named: g.chance(30), Elem: g.R.Intn(ps.NumTypes), Form: "lit"}
-		if ps.Types[sl.Elem].Home == "ext" || g.chance(25) {
+			Named: g.chance(30), Form: "lit", Assign: true}
+		sl.Elem, sl.Param = g.assignablePair(false)
+		if ps.Types[sl.Param].Home == "ext" || g.chance(25) {
 			sl.Form = "named"
 		}
 		p.Slices = append(p.Slices, sl)
 	}
 	for m := 0; m < nm; m++ {
 		mp := &ps.Map{M: m, Ctx: g.chance(45), Err: g.chance(65), Len: sizes[g.R.Intn(len(sizes))],
-			Key: g.comparableType(), Val: g.R.Intn(ps.NumTypes), Form: "lit"}
-		if ps.Types[mp.Key].Home == "ext" || ps.Types[mp.Val].Home == "ext" || g.chance(25) {
+			Form: "lit", Assign: true}
+		mp.Key, mp.KParam = g.assignablePair(true)
+		mp.Val, mp.VParam = g.assignablePair(false)
+		if ps.Types[mp.KParam].Home == "ext" || ps.Types[mp.VParam].Home == "ext" || g.chance(25) {
 			mp.Form = "named"
 		}
 		p.Maps = append(p.Maps, mp)
@@ -684,7 +752,6 @@ func (g *Gen) ParallelProgram(pid int) *ps.Program {
 		for _, s := range p.Slices {
 			if g.chance(55) {
 				s.End, s.EndCtx, s.EndErr = true, g.chance(40), g.chance(60)
-				s.Idx = true // known defect F2: SliceEnd needs the index form
 			}
 		}
 		for _, m := range p.Maps {
@@ -713,9 +780,75 @@ func (g *Gen) ParallelProgram(pid int) *ps.Program {
 	p.Generic = g.chance(20)
 	p.TyAlias = g.chance(25)
 	p.Site = g.pickS("assign", "assign", "assign", "return", "if", "arg")
+	g.quirks(p)
 	g.forms(p)
 	g.order(p)
 	return p
+}
+
+// assignablePair draws an (element, parameter) type pair with the element
+// assignable to the parameter: mostly identical types, otherwise a
+// concrete type implementing the parameter interface or a named/unnamed
+// pair with identical underlying types.
+func (g *Gen) assignablePair(key bool) (elem, param int) {
+	if g.chance(30) {
+		pairs := [][2]int{{20, 7}, {20, 7}, {21, 3}, {3, 21}, {19, 23}, {23, 19}}
+		if key {
+			pairs = [][2]int{{20, 7}}
+		}
+		pr := pairs[g.R.Intn(len(pairs))]
+		return pr[0], pr[1]
+	}
+	if key {
+		t := g.comparableType()
+		return t, t
+	}
+	t := g.R.Intn(len(ps.Types))
+	return t, t
+}
+
+// unassignablePair draws an (element, parameter) pair Go refuses.
+func (g *Gen) unassignablePair(key bool) (elem, param int) {
+	pairs := [][2]int{{7, 20}, {22, 2}, {2, 22}, {0, 2}, {0, 17}, {1, 9}, {3, 15}}
+	if key {
+		pairs = [][2]int{{22, 2}, {2, 22}, {0, 2}, {0, 17}, {8, 13}, {10, 2}}
+	}
+	pr := pairs[g.R.Intn(len(pairs))]
+	return pr[0], pr[1]
+}
+
+// MutatedParallelKind draws a parallel program the tool must refuse.
+func (g *Gen) MutatedParallelKind(pid int, kind string) *ps.Program {
+	if kind == "coe-end" {
+		return g.MutatedParallel(pid)
+	}
+	for {
+		p := g.ParallelProgram(pid)
+		switch {
+		case kind == "slice-unassignable" && len(p.Slices) > 0:
+			s := p.Slices[g.R.Intn(len(p.Slices))]
+			s.Elem, s.Param = g.unassignablePair(false)
+			s.Assign = false
+			if ps.Types[s.Param].Home == "ext" {
+				s.Form = "named"
+			}
+		case kind == "map-unassignable" && len(p.Maps) > 0:
+			m := p.Maps[g.R.Intn(len(p.Maps))]
+			if g.chance(50) {
+				m.Key, m.KParam = g.unassignablePair(true)
+			} else {
+				m.Val, m.VParam = g.unassignablePair(false)
+			}
+			m.Assign = false
+			if ps.Types[m.KParam].Home == "ext" || ps.Types[m.VParam].Home == "ext" {
+				m.Form = "named"
+			}
+		default:
+			continue
+		}
+		p.Stream = "mut:" + kind
+		return p
+	}
 }
 
 // MutatedParallel draws a parallel program the tool must refuse:
